@@ -6,6 +6,10 @@ props = [json.loads(l) for l in open(os.path.join(V, "properties.jsonl"))]
 
 EVAL_NOTE = "trusted: TLC; the renderer's canonical layout and path->line map; H2 hook events (emitted after each VM state change in the single evaluator goroutine); program families are bounded (sizes in the evidence)"
 CHECKS = {
+ "C12": dict(
+   technique="TLA+ sequential ADT spec (ZnColl) open-client model checking; TLC-generated operation histories replayed as Zn programs; TLC trace validation (Trace_ZnColl) of operation logs recorded from value.Array/value.HashMap",
+   level="TLC enumerates every history of 3 list operations (14 operations x arguments from 5 start lists, 841k) and 3 (thorough: 4) dictionary operations (8 operations, 4 start dictionaries); a TLC-seeded 1/20 resp. 1/3 of them (all in the thorough tier) become one Zn program each that displays reply, collection, length, text form / 所有索引 / 所有值 / generated JSON after every step and iterates at the end; laws and invariants are checked to length 8 with a VIEW. Random histories of 500-2000 operations over 9 values and 8 keys are recorded from the real value types and validated by TLC line by line (action, reply, full projected state, consistent 寻找 base).",
+   note="trusted: TLC; the harness's program rendering of operations; direct value API calls in the recorder", ref="5 C12"),
  "C07": dict(
    technique="ZnEval TLA+ machine (heap facet: deep copy on bind, reference objects, invariant FreshOnBind) model-checked by TLC over copy/mutate histories; displayed snapshots after every step compared with the real interpreter",
    level="Copy/mutate histories over names A..D from a nested list or a dictionary of lists (declare-copy, multi-declare, assign, element/key assignment of collections, five mutation kinds through any name at nesting 1-2, mutation through a 遍历 loop variable), exhaustive for <= 2 steps and seeded random for 3-5 steps (2500 quick / 40000 thorough), plus object-sharing, per-instance-default and literal-freshness programs: every variable is displayed after every step and must equal the snapshot of the spec's heap machine; TLC checks FreshOnBind (the freshly bound slot shares no list/dict cell with any other slot) in every state.",
